@@ -360,6 +360,10 @@ func imageTags(m *fsmodel.FS) []string {
 	return tags
 }
 
+func isWalCreateEv(e simrt.Event) bool {
+	return e.Kind == simrt.EvCreate && strings.HasPrefix(e.Path, "wal/")
+}
+
 // ---- the analysis of one case ----
 
 type crashOutcome struct {
@@ -462,12 +466,47 @@ func runCrashCase(c *Ctx, dc dbCase, tape *simrt.Tape, plan crashPlan) crashOutc
 		}
 	}
 	// wal file creations (for the async lower bound)
-	isWalCreate := func(e simrt.Event) bool {
-		return e.Kind == simrt.EvCreate && strings.HasPrefix(e.Path, "wal/")
-	}
 	m := fsmodel.New()
 	cache := map[string]*recovered{}
-	lastWalCreateSeq := 0
+	// Rotations as the statement of C13 means them, observed without naming any mechanism: a WAL file is created inside
+	// the window of a client call (or of Open / Close); the rotation counts as done once that call has returned, and
+	// then every operation that had returned before the call started must survive. (Counting from the file creation
+	// itself would demand more than the statement: a correct implementation may create the next file early.)
+	type window struct{ start, end int }
+	var windows []window
+	{
+		open := map[int64]int{}
+		markStart := 0
+		for _, e := range trace {
+			switch e.Kind {
+			case simrt.EvInvoke:
+				open[e.N] = e.Seq
+			case simrt.EvReturn:
+				if s0, ok := open[e.N]; ok {
+					windows = append(windows, window{s0, e.Seq})
+					delete(open, e.N)
+				}
+			case simrt.EvMark:
+				switch e.Note {
+				case "open", "close":
+					markStart = e.Seq
+				case "opened", "closed":
+					windows = append(windows, window{markStart, e.Seq})
+				}
+			}
+		}
+	}
+	type rotation struct{ doneAt, coversBefore int }
+	var rotations []rotation
+	for _, e := range trace {
+		if isWalCreateEv(e) {
+			for _, wdw := range windows {
+				if wdw.start < e.Seq && e.Seq < wdw.end {
+					rotations = append(rotations, rotation{wdw.end, wdw.start})
+				}
+			}
+		}
+	}
 	nestedBudget := 6
 	if plan.thorough {
 		nestedBudget = 40
@@ -477,9 +516,6 @@ func runCrashCase(c *Ctx, dc dbCase, tape *simrt.Tape, plan crashPlan) crashOutc
 			e := trace[mut[bi-1]]
 			if err := m.Apply(e); err != nil {
 				panic("model fidelity: " + err.Error())
-			}
-			if isWalCreate(e) {
-				lastWalCreateSeq = e.Seq
 			}
 		}
 		if !choose[bi] {
@@ -529,8 +565,11 @@ func runCrashCase(c *Ctx, dc dbCase, tape *simrt.Tape, plan crashPlan) crashOutc
 				if op.Inv != 0 && op.Inv < cutoff {
 					invoked++
 				}
-				if op.Ret != 0 && op.Ret < lastWalCreateSeq && lastWalCreateSeq < cutoff {
-					pMin++
+				for _, rot := range rotations {
+					if rot.doneAt < cutoff && op.Ret != 0 && op.Ret < rot.coversBefore {
+						pMin++
+						break
+					}
 				}
 			}
 			kind, detail = judgePrefix(hist, dc.Keys, rec.state, pMin, invoked)
